@@ -167,6 +167,8 @@ fn run(ctx: &mut Ctx) {
             }, &case_fn);
         }
         Tier::Thorough => {
+            // the property's own quantifier ("all 1,112,064 scalar values x 6 single conversion flags")
+            ctx.exhaustive_domain = true;
             ctx.exhaustive("all scalars x 6 flags", SCALARS * 6, &|i| Case::new(vec![scalar(i / 6).unwrap().to_string()], singles[(i % 6) as usize].clone()), &case_fn);
             // all 64 subsets on a stride sample of all scalars
             let stride = 17u64;
